@@ -6,7 +6,7 @@ import multiprocessing as mp
 import time
 from typing import Any
 
-from .. import semfam, semgen, semrun
+from .. import semfam, semfam2, semgen, semrun
 from ..runner import Check
 from ..translate import constraints as tconstraints
 
@@ -108,13 +108,26 @@ def _reject_reason(err: str) -> str:
     return "other"
 
 
+def _schema_loc(sp: list) -> str:
+    """place of the schema node that raised a jsonschema error (its absolute schema path ends with the keyword)"""
+    holder = sp[-2] if len(sp) >= 2 else ""
+    if holder == "additionalProperties":
+        return "ap_value"
+    if holder == "items":
+        return "array_item"
+    return "member" if len(sp) >= 3 and sp[-3] == "properties" else "root"
+
+
 def eval_pair(task: tuple) -> dict:
     """one (document, style): baseline vs every variant, on the instance corpus of the document.
     With a fourth component `{"openapi": spec, "root": class}` the two runs read the OpenAPI document `spec`
     (scopes schemas + paths + parameters) and the class under test is `root` ("*Suffix": found by its suffix);
     `doc` is then the JSON-Schema document that says what that class accepts (the corpus is derived from it)."""
     doc, style, variants = task[:3]
-    oa = task[3] if len(task) > 3 else None
+    t3 = task[3] if len(task) > 3 else None
+    oa = t3 if t3 and "openapi" in t3 else None
+    # `{"instances": [...]}`: further instances (valid or not) built for a family — both runs must agree on them too
+    family_insts = list((t3 or {}).get("instances", [])) if isinstance(t3, dict) else []
     src = oa["openapi"] if oa else doc
     bkw = {"input_file_type": "openapi", "root_name": oa["root"]} if oa else {}
     out: dict[str, Any] = {"failures": [], "hits": {}, "evals": 0, "distinct": [], "sample": None}
@@ -132,6 +145,31 @@ def eval_pair(task: tuple) -> dict:
     for inst in insts[:3]:
         muts += semgen.mutations(doc, inst)
     corpus = [(i, None) for i in insts] + [(m.instance, m) for m in muts]
+    n_generic = len(corpus)
+    have = {semgen.canon(i) for i, _ in corpus}
+    validator = semgen.validator_for(doc)
+    trunc_validator = semgen.validator_for(semfam2.truncated_doc(doc)) if family_insts and semfam2.nonintegral_on_integer(doc) else None
+    for fi in family_insts:
+        if semgen.canon(fi) in have:
+            continue
+        # an instance of the family that breaks exactly one keyword is labelled like a one-step mutation (keyword, place)
+        errs = list(validator.iter_errors(fi))
+        fm = None
+        if not errs and trunc_validator is not None:
+            # a VALID instance that stops being valid when the non-integral bounds of integers are cut by int(): known
+            # finding D10 of C03/C04 makes every run refuse it where the bound is written; labelled with the place(s)
+            terrs = list(trunc_validator.iter_errors(fi))
+            locs = {_schema_loc(list(e.absolute_schema_path)) for e in terrs}
+            if terrs and len(locs) == 1:
+                fm = semgen.Mutation(fi, "valid_instance", locs.pop(), list(terrs[0].absolute_path), {}, "nonintegral_bound_on_integer", False, terrs[0].instance)
+        if len(errs) == 1 and errs[0].validator in CONSTRAINT_KEYWORDS:
+            sp = list(errs[0].absolute_schema_path)
+            loc = _schema_loc(sp)
+            leaf = doc
+            for k in sp[:-1]:
+                leaf = leaf[k]
+            fm = semgen.Mutation(fi, errs[0].validator, loc, list(errs[0].absolute_path), leaf, semgen._cause(errs[0].validator, leaf), False, errs[0].instance)
+        corpus.append((fi, fm))
     base = semrun.build(src, style, {}, **bkw)
     out["evals"] += 1
     if not base.ok:
@@ -154,7 +192,7 @@ def eval_pair(task: tuple) -> dict:
                 out["failures"].append(({**cls0, "oracle": "variant_not_built", "keyword": "none", "location": "none", "direction": "none", "error": error_class(v.error, v.code)}, inp, f"baseline builds, variant does not: {v.error[:300]}"))
                 continue
             try:
-                for (inst, m), bv in zip(corpus, bvec):
+                for ci, ((inst, m), bv) in enumerate(zip(corpus, bvec)):
                     out["evals"] += 1
                     vv = v.validate(inst)[0]
                     out["distinct"].append(hash((semgen.canon(doc), semgen.canon(inst), style, name)))
@@ -162,7 +200,7 @@ def eval_pair(task: tuple) -> dict:
                         cls = {
                             **cls0,
                             "oracle": "verdict_differs",
-                            "keyword": m.keyword if m else "valid_instance",
+                            "keyword": m.keyword if m else ("valid_instance" if ci < n_generic else "family_instance"),
                             "location": m.location if m else "none",
                             "direction": "variant_looser" if vv else "variant_stricter",
                             "mcause": m.cause if m else "none",
@@ -254,6 +292,34 @@ def campaign_random(ck: Check, n: int) -> None:
         for st in STYLES:
             tasks.append((doc, st, VARIANTS))
     run_tasks(ck, camp, tasks)
+    camp.wall_s = time.time() - t0
+
+
+# the options that move a bound from the constrained type to Field() (and back: collapsing merges a root type's bounds
+# into the field under field_constraints) — the two routings that write the bound of an integer
+BOUND_ROUTING_VARIANTS = [v for v in VARIANTS if v[0] in ("field_constraints", "use_annotated", "collapse_root_models+field_constraints", "use_annotated+use_union_operator")]
+
+
+def fracbound_tasks(rng, n: int, off: int = 0, camp=None) -> list[tuple]:
+    tasks = []
+    for i in range(n):
+        doc, feats, cand = semfam2.fracbound_doc(rng.fork(str(i)), off + i)
+        if camp is not None:
+            for f in feats:
+                camp.hit(f"feature:{f}")
+        for st in STYLES:
+            tasks.append((doc, st, BOUND_ROUTING_VARIANTS if i % 4 else VARIANTS, {"instances": cand}))
+    return tasks
+
+
+def campaign_fracbound(ck: Check, n: int) -> None:
+    """integer-typed schemas whose bounds are not whole numbers: the constrained type (baseline) and Field()
+    (--field-constraints / --use-annotated) must admit the same integers and report the same bounds; the corpus carries
+    the boundary integers floor(b)-1 … ceil(b)+1 of every bound"""
+    camp = ck.campaign("differential oracle between two REAL runs, family: integer-typed schemas with NON-INTEGRAL bounds (4 bound keywords × zone of the bound × fractions × every place), boundary integers as instances: baseline vs the options that re-route constraints × 2 styles")
+    t0 = time.time()
+    rng = ck.rng.fork("fam-fracbound")
+    run_tasks(ck, camp, fracbound_tasks(rng, n, rng.below(48), camp))
     camp.wall_s = time.time() - t0
 
 
@@ -387,7 +453,8 @@ def campaign_reuse(ck: Check, n: int) -> None:
 def search(ck: Check) -> None:
     camp = ck.campaign("search: more seeded schemas after a broken obligation")
     rng = ck.rng.fork("search")
-    tasks = []
+    # every (keyword, zone, fraction) combination of the non-integral-bound family first
+    tasks = fracbound_tasks(rng.fork("frac"), 48)
     for i in range(60):
         doc, _ = semgen.gen_doc(rng.fork(str(i)), semgen.GenCfg(draft4=(i % 5 == 0)))
         for st in STYLES:
@@ -404,7 +471,10 @@ def known_findings(ck: Check) -> None:
     for f in ck.findings:
         w = f["witness"]
         variants = [v for v in VARIANTS if v[0] == w["option"]]
-        res = eval_pair((w["doc"], w["style"], variants, *([w["openapi"]] if "openapi" in w else [])))
+        t3 = dict(w["openapi"]) if "openapi" in w else {}
+        if "instance" in w:
+            t3["instances"] = [w["instance"]]
+        res = eval_pair((w["doc"], w["style"], variants, *([t3] if t3 else [])))
         hits = [c for c, _i, _o in res["failures"] if all(c.get(k) == v or (isinstance(v, list) and c.get(k) in v) for k, v in f["match"].items())]
         if hits:
             ck.known(f["id"], f["what"])
@@ -427,6 +497,7 @@ def run(ck: Check) -> None:
     campaign_reuse(ck, 40 if quick else 400)
     campaign_focused(ck)
     campaign_random(ck, 70 if quick else 600)
+    campaign_fracbound(ck, 16 if quick else 96)
     campaign_openapi_stage1(ck, 30 if quick else 300)
     campaign_openapi(ck, 10 if quick else 120)
     ck.search_hooks.append(search)
@@ -440,7 +511,10 @@ def replay(ck: Check, path: str) -> int:
     camp = ck.campaign("replay")
     if "doc" in inp:
         variants = [v for v in VARIANTS if v[0] == inp.get("option")] or VARIANTS
-        res = eval_pair((inp["doc"], inp.get("style", "v2"), variants, *([inp["openapi"]] if "openapi" in inp else [])))
+        t3 = dict(inp["openapi"]) if "openapi" in inp else {}
+        if "instance" in inp:
+            t3["instances"] = [inp["instance"]]
+        res = eval_pair((inp["doc"], inp.get("style", "v2"), variants, *([t3] if t3 else [])))
         camp.evaluations += res["evals"]
         for cls, i2, obs in res["failures"]:
             ck.fail(cls, i2, obs)
